@@ -163,6 +163,9 @@ theorem opWuwx_inv (fuel : Nat) : ∀ (s : State) (c k : String) (names : List S
           | exact opWriteWithXattrs_inv hI _ _ _ _ _ _ _ _ _ _ hs)
       | split)
 
+theorem opSet_inv (s : State) (c k : String) (exp : Nat) (pe : Bool) (v : String) (raw : Bool) (hs : I s) :
+    I (opSet s c k exp pe v raw).1 := hI.txn.set k exp pe v _ s c hs
+
 theorem opSubdocWrite_inv (s : State) (c k path : String) (cas : Nat) (v : Option String) (ins : Bool) (hs : I s) :
     I (opSubdocWrite s c k path cas v ins).1 := by
   unfold opSubdocWrite
@@ -171,6 +174,42 @@ theorem opSubdocWrite_inv (s : State) (c k path : String) (cas : Nat) (v : Optio
   · exact opWriteCas_inv hI _ _ _ _ _ _ _ hs
 
 theorem opTouch_inv (s : State) (c k : String) (exp : Nat) (hs : I s) : I (opTouch s c k exp).1 := hI.touchOp s c k exp hs
+
+omit hI in
+theorem inv_ite {p : Prop} [Decidable p] (a b : State × Out) (ha : I a.1) (hb : I b.1) : I (if p then a else b).1 := by
+  split <;> assumption
+
+theorem opStartFeed_inv (s : State) (id c : String) (bf : Backfill) (dump ko : Bool) (pfx : String) (hs : I s) :
+    I (opStartFeed s id c bf dump ko pfx).1 := by
+  unfold opStartFeed
+  cases s.coll? c with
+  | none => exact hs
+  | some x =>
+    simp only
+    generalize hf : (List.filter (fun g => decide (g.id ≠ id)) s.feeds ++ [_]) = fs1
+    by_cases hd : dump = true
+    · simp only [hd, if_true]
+      generalize hfs2 : List.map _ fs1 = fs2
+      exact inv_ite _ _ (opSet_inv hI _ _ _ _ _ _ _ (hI.feeds s fs2 hs)) (hI.feeds s fs2 hs)
+    · simp only [hd, if_false]
+      exact hI.feeds s fs1 hs
+
+theorem opStopFeed_inv (s : State) (id : String) (hs : I s) : I (opStopFeed s id).1 := by
+  unfold opStopFeed
+  cases s.feeds.find? (fun f => f.id = id) with
+  | none => exact hs
+  | some f =>
+    simp only
+    split
+    · exact hs
+    · generalize List.map _ s.feeds = fs
+      exact inv_ite _ _ (opSet_inv hI _ _ _ _ _ _ _ (hI.feeds s fs hs)) (hI.feeds s fs hs)
+
+theorem opDrain_inv (s : State) (id : String) (hs : I s) : I (opDrain s id).1 := by
+  unfold opDrain
+  cases s.feeds.find? (fun f => f.id = id) with
+  | none => exact hs
+  | some f => exact hI.feeds s _ hs
 
 /-- One step preserves the invariant. -/
 theorem step_inv (s : State) (op : Op) (hwf : W op) (hs : I s) : I (step s op).1 := by
@@ -197,28 +236,19 @@ theorem step_inv (s : State) (op : Op) (hwf : W op) (hs : I s) : I (step s op).1
   | purge => exact hI.purge s hwf hs
   | update c k exp steps => exact opUpdate_inv hI _ _ _ _ _ _ _ _ hs
   | wuwx c k names steps sets dels m cbExp pe => exact opWuwx_inv hI _ _ _ _ _ _ _ _ _ _ _ _ _ _ hs
-  | startFeed id c bf dump ko =>
-    show I (opStartFeed s id c bf dump ko).1
-    unfold opStartFeed
-    split
-    · exact hs
-    · exact hI.feeds s _ hs
-  | drain id =>
-    show I (opDrain s id).1
-    unfold opDrain
-    split
-    · exact hs
-    · exact hI.feeds s _ hs
+  | startFeed id c bf dump ko pfx => exact opStartFeed_inv hI s id c bf dump ko pfx hs
+  | stopFeed id => exact opStopFeed_inv hI s id hs
+  | drain id => exact opDrain_inv hI s id hs
   | fire => exact hI.fire s hs
   | rb c k names => exact hs
   | lastCas c => exact hs
   | keys c => exact hs
   | expState => exact hs
+  | draw => exact hI.draw s hs
+  | restart p => exact hI.restart s p hwf hs
   | wsd c k path cas v => exact opSubdocWrite_inv hI _ _ _ _ _ _ _ hs
   | sdi c k path cas v => exact opSubdocWrite_inv hI _ _ _ _ _ _ _ hs
   | gsd c k path => exact hs
-  | draw => exact hI.draw s hs
-  | restart p => exact hI.restart s p hwf hs
 
 /-- Every state reachable from a state satisfying the invariant satisfies it: induction over any operation list. -/
 theorem run_inv (ops : List Op) : ∀ (s : State), (∀ op ∈ ops, W op) → I s → I (run s ops).1 := by
